@@ -209,6 +209,14 @@ func concretise(name string, kind string, n int, seed int64) ([]byte, int) {
 		return append([]byte(canon), data(1500-pl)...), pl
 	case "ptr_upper_oid":
 		return []byte(canonPointer(strings.ToUpper(oid), 12345)), pl
+	case "ptr_short_oid":
+		return []byte(canonPointer(oid[:63], 12345)), pl - 1
+	case "ptr_md5_oid":
+		return []byte(strings.Replace(canonPointer(oid[:32], 12345), "oid sha256:", "oid md5:", 1)), pl - 35
+	case "ptr_neg_size":
+		return []byte(strings.Replace(canon, "size 12345", "size -12345", 1)), pl + 1
+	case "ptr_nonnum_size":
+		return []byte(strings.Replace(canon, "size 12345", "size 12e45", 1)), pl
 	case "ptr_ext_dash": // an extension whose name uses the other characters keys may use: . and -
 		return []byte(fmt.Sprintf("version https://git-lfs.github.com/spec/v1\next-0-my-ext.v2 sha256:%s\noid sha256:%s\nsize 12345\n", core.Sha([]byte("ext")), oid)), pl
 	case "ptr_ext":
@@ -661,9 +669,33 @@ func smudgePassthrough(c *core.Ctx, lfsBin string, name string, n int, idx int) 
 	for _, d := range []string{"whole", "split_mid"} {
 		out, se, code := runPiped(env, repo, chunksFor(d, input, pl), "smudge", "f.bin")
 		if code != 0 || !bytes.Equal(out, input) {
-			return &core.Violation{Assertion: "non-pointer-passes-through-smudge", Fields: map[string]string{"content": name, "delivery": d},
+			return &core.Violation{Assertion: "non-pointer-passes-through-smudge", Fields: map[string]string{"content": name, "delivery": d, "frontend": "oneshot"},
 				Detail: map[string]interface{}{"why": "smudge changed bytes that are not a pointer", "exit": code, "stderr": core.Tail(se, 600),
 					"input_len": len(input), "output_len": len(out)}}, nil
+		}
+	}
+	// the long-running filter, with and without the delay capability on offer
+	for _, caps := range [][]string{{"clean", "smudge"}, {"clean", "smudge", "delay"}} {
+		cmd := exec.Command(filepath.Join(env.BinDir, "git-lfs"), "filter-process")
+		cmd.Dir = repo
+		cmd.Env = env.Environ()
+		sess, err := pkt.Start(cmd, caps)
+		if err != nil {
+			return nil, err
+		}
+		var extra []string
+		if len(caps) == 3 {
+			extra = []string{"can-delay=1"}
+		}
+		r, timedOut := sess.RequestT(60*time.Second, "smudge", "f.bin", extra, input, 65516, true)
+		bad := timedOut || r.Died || r.ProtoErr != "" || r.Status != "success" || (r.FinalStatus != "" && r.FinalStatus != "success") || !bytes.Equal(r.Content, input)
+		stderr := sess.Stderr.String()
+		sess.Close()
+		if bad {
+			return &core.Violation{Assertion: "non-pointer-passes-through-smudge", Fields: map[string]string{"content": name, "delivery": "pktmax", "frontend": "process", "delay": fmt.Sprint(len(caps) == 3)},
+				Detail: map[string]interface{}{"why": "filter-process did not answer a smudge of bytes that are not a pointer with status=success and the same bytes",
+					"timeout": timedOut, "died": r.Died, "proto": r.ProtoErr, "status": r.Status, "final_status": r.FinalStatus, "stderr": core.Tail(stderr, 600),
+					"input_len": len(input), "output_len": len(r.Content)}}, nil
 		}
 	}
 	return nil, nil
@@ -739,7 +771,8 @@ func runFilterProperty(c *core.Ctx, kind string) {
 			n string
 			l int
 		}{{"one", 1}, {"text200", 200}, {"bin1023", 1023}, {"bin1024", 1024}, {"bin5000", 5000}, {"ptr_plus_byte", 131}, {"ptr_plus_line", 140},
-			{"ptr_upper_oid", 130}, {"ptr_then_data_1500", 1500}, {"ptr_pad1025", 1025}}
+			{"ptr_upper_oid", 130}, {"ptr_then_data_1500", 1500}, {"ptr_pad1025", 1025},
+			{"ptr_short_oid", 129}, {"ptr_md5_oid", 127}, {"ptr_neg_size", 131}, {"ptr_nonnum_size", 130}, {"blank_mix", 8}}
 		core.Parallel(len(names), 8, func(i int) {
 			v, err := smudgePassthrough(c, lfs, names[i].n, names[i].l, i)
 			if err != nil {
@@ -753,7 +786,7 @@ func runFilterProperty(c *core.Ctx, kind string) {
 		if infra != nil {
 			c.Infra("%v", infra)
 		}
-		n += len(names) * 2
+		n += len(names) * 4
 	}
 	c.Set("evaluations", n)
 	c.Set("distinct_nontrivial", len(cases))
